@@ -49,9 +49,15 @@ fn case_from(v: &Value) -> Option<Case> {
 
 fn is_binv(d: &Dist) -> bool {
     match d.dist {
-        DistType::Binomial { trials, probability } => {
+        DistType::Binomial {
+            trials,
+            probability,
+        } => {
             let p = probability.min(1.0 - probability);
-            probability != 0.0 && probability != 1.0 && (trials as f64) * p < 10.0 && trials <= i32::MAX as u64
+            probability != 0.0
+                && probability != 1.0
+                && (trials as f64) * p < 10.0
+                && trials <= i32::MAX as u64
         }
         _ => false,
     }
@@ -73,18 +79,49 @@ fn random_dist(g: &mut Gen) -> Dist {
                 let b = a + f(g);
                 DistType::Uniform { low: a, high: b }
             }
-            1 => DistType::Normal { mean: f(g), stdev: f(g) },
-            2 => DistType::SkewNormal { location: f(g), scale: f(g), shape: f(g) - f(g) },
-            3 => DistType::LogNormal { mu: f(g).ln().max(-50.0).min(50.0), sigma: g.f01() * 5.0 },
-            4 => DistType::Binomial { trials: g.below(1_000_000_001), probability: g.f01() },
-            5 => DistType::Geometric { probability: g.f01().max(1e-9) },
-            6 => DistType::Pareto { scale: f(g), shape: g.f01() * 5.0 + 1e-3 },
+            1 => DistType::Normal {
+                mean: f(g),
+                stdev: f(g),
+            },
+            2 => DistType::SkewNormal {
+                location: f(g),
+                scale: f(g),
+                shape: f(g) - f(g),
+            },
+            3 => DistType::LogNormal {
+                mu: f(g).ln().max(-50.0).min(50.0),
+                sigma: g.f01() * 5.0,
+            },
+            4 => DistType::Binomial {
+                trials: g.below(1_000_000_001),
+                probability: g.f01(),
+            },
+            5 => DistType::Geometric {
+                probability: g.f01().max(1e-9),
+            },
+            6 => DistType::Pareto {
+                scale: f(g),
+                shape: g.f01() * 5.0 + 1e-3,
+            },
             7 => DistType::Poisson { lambda: f(g) * 1e6 },
-            8 => DistType::Weibull { scale: f(g), shape: g.f01() * 5.0 + 1e-3 },
-            9 => DistType::Gamma { scale: f(g), shape: g.f01() * 50.0 + 1e-3 },
-            _ => DistType::Beta { alpha: g.f01() * 50.0 + 1e-3, beta: g.f01() * 50.0 + 1e-3 },
+            8 => DistType::Weibull {
+                scale: f(g),
+                shape: g.f01() * 5.0 + 1e-3,
+            },
+            9 => DistType::Gamma {
+                scale: f(g),
+                shape: g.f01() * 50.0 + 1e-3,
+            },
+            _ => DistType::Beta {
+                alpha: g.f01() * 50.0 + 1e-3,
+                beta: g.f01() * 50.0 + 1e-3,
+            },
         };
-        let d = Dist::new(dt, if g.chance(0.2) { f(g) } else { 0.0 }, if g.chance(0.2) { f(g) } else { 0.0 });
+        let d = Dist::new(
+            dt,
+            if g.chance(0.2) { f(g) } else { 0.0 },
+            if g.chance(0.2) { f(g) } else { 0.0 },
+        );
         if d.validate().is_ok() {
             return d;
         }
@@ -118,10 +155,28 @@ fn gen_prefix(g: &mut Gen, high_extreme_ok: bool) -> Vec<u64> {
                 u64::MAX << 12,
                 0xffff_ffff_0000_0000,
             ]),
-            6 => *g.pick(&[0, 1, 0x800, 0x1000, 1 << 11, 1 << 12, 1 << 32, (1 << 32) - 1, 0x1ff]),
+            6 => *g.pick(&[
+                0,
+                1,
+                0x800,
+                0x1000,
+                1 << 11,
+                1 << 12,
+                1 << 32,
+                (1 << 32) - 1,
+                0x1ff,
+            ]),
             _ => {
                 if high_extreme_ok {
-                    *g.pick(&[0, u64::MAX, 0xffff_ffff_ff00_0000, 1, 0x8000_0000_0000_0000, 0x1ff, 1 << 52])
+                    *g.pick(&[
+                        0,
+                        u64::MAX,
+                        0xffff_ffff_ff00_0000,
+                        1,
+                        0x8000_0000_0000_0000,
+                        0x1ff,
+                        1 << 52,
+                    ])
                 } else {
                     let r = g.u64() >> 1;
                     *g.pick(&[0, 1, 0x8000_0000_0000_0000, 0x1ff, 1 << 52, r])
@@ -132,7 +187,11 @@ fn gen_prefix(g: &mut Gen, high_extreme_ok: bool) -> Vec<u64> {
 }
 
 fn gen_case(g: &mut Gen) -> Case {
-    let dist = if g.chance(0.65) { wild_dist(g) } else { random_dist(g) };
+    let dist = if g.chance(0.65) {
+        wild_dist(g)
+    } else {
+        random_dist(g)
+    };
     // D5 is a known finding: its trigger (BINV path x draws next to 1) is still
     // generated, but rarely, so that the budget goes to everything else
     let high_ok = !is_binv(&dist) || g.chance(0.04);
@@ -192,7 +251,11 @@ impl C13 {
             seed: c.seed,
         };
         let fam = format!("{:?}", c.dist.dist);
-        let fam = fam.split(|ch| ch == ' ' || ch == '{').next().unwrap_or("").to_string();
+        let fam = fam
+            .split(|ch| ch == ' ' || ch == '{')
+            .next()
+            .unwrap_or("")
+            .to_string();
         stats.inc(&format!("family.{fam}"));
         if !c.prefix.is_empty() {
             stats.fault("rng_extreme_prefix");
@@ -241,7 +304,8 @@ impl C13 {
             let rng = SimRng::new(&spec);
             rng_reset(WORD_BUDGET * 4);
             let r = catch_sut(|| {
-                let mut fw = Framework::new(vec![m], 0.0, 0.0, VInstant(0), rng).expect("validated");
+                let mut fw =
+                    Framework::new(vec![m], 0.0, 0.0, VInstant(0), rng).expect("validated");
                 let mut out: Vec<ActionRec> = vec![];
                 for k in 0..c.samples.min(6) {
                     out.extend(
@@ -257,13 +321,19 @@ impl C13 {
                 Err(p) => {
                     v.push(Violation::new(
                         &panic_class(&p),
-                        format!("framework with {:?} as consumer #{which} panicked: {p}", c.dist),
+                        format!(
+                            "framework with {:?} as consumer #{which} panicked: {p}",
+                            c.dist
+                        ),
                         Some(case_json(c)),
                     ));
                     return v;
                 }
                 Ok(acts) => {
-                    if let Some(a) = acts.iter().find(|a| a.timeout_ns > DAY_NS || a.duration_ns > DAY_NS) {
+                    if let Some(a) = acts
+                        .iter()
+                        .find(|a| a.timeout_ns > DAY_NS || a.duration_ns > DAY_NS)
+                    {
                         v.push(Violation::new(
                             "consumer-over-24h",
                             format!("{:?} as consumer #{which}: {}", c.dist, a.short()),
@@ -303,6 +373,7 @@ impl Engine for C13 {
             ],
             stubbed_components: vec!["random source: SimRng::Script (extreme prefix + seeded Xoshiro256**)"],
             totality: true,
+            cpu_limit_s: crate::sup::CASE_CPU_LIMIT_S,
             exhaustive: false,
         }
     }
@@ -375,7 +446,13 @@ impl Engine for C13 {
         }
         None
     }
-    fn known_finding_crash(&self, _k: u64, seed: u64, _tier: Tier, kind: &str) -> Option<&'static str> {
+    fn known_finding_crash(
+        &self,
+        _k: u64,
+        seed: u64,
+        _tier: Tier,
+        kind: &str,
+    ) -> Option<&'static str> {
         if kind != "hang" {
             return None;
         }
